@@ -27,3 +27,26 @@ Qed.
 (* a case whose probability equals the ratio acts *)
 Lemma econ_equal_acts a : n_leb XR (Fin a) (Fin a) = true /\ n_ltb XR (Fin a) (Fin a) = false.
 Proof. xr_unfold. split; [apply orb_true_iff; right; apply Reqb_true; reflexivity | apply Rltb_false; lra]. Qed.
+
+(* ---- Murphy diagram: at every probability threshold a case is in exactly one of the three classes ------------------- *)
+Lemma trichotomy_bool e q :
+  (Nat.b2n (n_ltb XR (Fin e) (Fin q)) + Nat.b2n (n_ltb XR (Fin q) (Fin e)) + Nat.b2n (n_eqb XR (Fin q) (Fin e)))%nat = 1%nat.
+Proof.
+  xr_unfold.
+  destruct (Rltb e q) eqn:E1; destruct (Rltb q e) eqn:E2; destruct (Reqb q e) eqn:E3; cbn [Nat.b2n]; try reflexivity; exfalso;
+  repeat match goal with
+         | H : Rltb _ _ = true |- _ => apply Rltb_true in H
+         | H : Rltb _ _ = false |- _ => apply Rltb_false in H
+         | H : Reqb _ _ = true |- _ => apply Reqb_true in H
+         | H : Reqb _ _ = false |- _ => apply Reqb_false in H
+         end; lra.
+Qed.
+Lemma count_true_cons b l : count_true (b :: l) = (Nat.b2n b + count_true l)%nat.
+Proof. unfold count_true. destruct b; reflexivity. Qed.
+Lemma murphy_partition e ps :
+  (count_true (murphy_over XR (Fin e) (map (@Fin R) ps)) + count_true (murphy_under XR (Fin e) (map (@Fin R) ps))
+   + count_true (murphy_equal XR (Fin e) (map (@Fin R) ps)))%nat = length ps.
+Proof.
+  unfold murphy_over, murphy_under, murphy_equal. induction ps as [|q ps IH]; [reflexivity|].
+  cbn [map length]. rewrite !count_true_cons. cbv beta. pose proof (trichotomy_bool e q) as Ht. cbv beta in IH. change (bT RBase) with R in *. lia.
+Qed.
